@@ -365,6 +365,7 @@ def _layout_kinds() -> dict[str, dict]:
         "u8:3": {"size": 1, "align": 1, "bits": 3}, "u8:5": {"size": 1, "align": 1, "bits": 5}, "u16:4": {"size": 2, "align": 2, "bits": 4},
         "u32:12": {"size": 4, "align": 4, "bits": 12}, "e16:4": {"size": 2, "align": 2, "bits": 4, "enum_of": "u16"}, "u16:12": {"size": 2, "align": 2, "bits": 12},
         "u32@8": {"size": 4, "align": 4, "offset": 8}, "u8@1": {"size": 1, "align": 1, "offset": 1},
+        "i24:4": {"size": 3, "align": 4, "bits": 4}, "i24:20": {"size": 3, "align": 4, "bits": 20},  # a unit whose size is not a multiple of its alignment
         "u16:0": {"size": 2, "align": 2, "bits": 0},  # a zero-width member: every walker treats it as a plain field (truthiness of field.bits)
     }
 
@@ -386,8 +387,8 @@ def _ref_struct_layout(kinds: list[dict], align: bool):
             offset += -offset & (k["align"] - 1)
         alignment = max(alignment, k["align"])
         if k.get("bits"):
-            storage = k.get("enum_of") or ("u%d" % (k["size"] * 8))
-            if remaining == 0 or storage != unit_type or (unit_type is not None and offset is not None and unit_off is not None and offset > unit_off + k["size"]):
+            storage = k.get("storage") or k.get("enum_of") or ("u%d" % (k["size"] * 8))
+            if remaining == 0 or storage != unit_type or (unit_type is not None and k.get("offset") is not None and unit_off is not None and offset > unit_off + k["size"]):
                 unit_type, remaining, unit_off = storage, k["size"] * 8, offset
                 if offset is not None:
                     offset += k["size"]
